@@ -1,7 +1,7 @@
 INIT Init
 NEXT Next
 CONSTANTS
-  Points <- Pts_t
+  Points <- Pts_tt
   ModeNames <- AllModes
 INVARIANT TypeOK
 INVARIANT ModesDenoteSameValue
